@@ -800,7 +800,7 @@ class PreferredUnits(metaclass=PreferredUnitsMeta):  # pylint: disable=too-many-
                 if isinstance(value, Unit):
                     setattr(PreferredUnits, attribute, value)
                 elif isinstance(value, str):
-                    if _unit := _parse_unit(value):
+                    if (_unit := _parse_unit(value)) is not None:
                         setattr(PreferredUnits, attribute, _unit)
                     else:
                         logger.warning(f"{value=} not a member of Unit")
@@ -846,7 +846,7 @@ def _parse_value(input_: Union[str, float, int],
         if isinstance(preferred, Unit):
             return preferred(float(value_))
         if isinstance(preferred, str):
-            if units_ := _parse_unit(preferred):
+            if (units_ := _parse_unit(preferred)) is not None:
                 return units_(float(value_))
         raise UnitAliasError(f"Unsupported {preferred=} unit alias")
 
@@ -863,7 +863,7 @@ def _parse_value(input_: Union[str, float, int],
 
     if match := re.match(r'(^-?(?:\d+\.\d*|\.\d+|\d+\.?))(.*$)', input_string):
         value, alias = match.groups()
-        if units := _parse_unit(alias):
+        if (units := _parse_unit(alias)) is not None:
             return units(float(value))
         raise UnitAliasError(f"Unsupported unit {alias=}")
 
